@@ -4,6 +4,8 @@ import glob, json, os
 rows = []
 for p in sorted(glob.glob(os.path.join(os.path.dirname(__file__), "..", "seeded", "*", "meta.json"))):
     m = json.load(open(p))
+    if m.get("kind") == "refactor":
+        continue
     name = os.path.basename(os.path.dirname(p))
     summ = (m.get("summary") or "").replace("|", "/").replace("\n", " ")
     summ = summ[:230] + ("…" if len(summ) > 230 else "")
@@ -17,3 +19,20 @@ for p in sorted(glob.glob(os.path.join(os.path.dirname(__file__), "..", "seeded"
 print("| change | what it does (author's summary, shortened) | quick checks run against it | strengthened? |")
 print("|---|---|---|---|")
 print("\n".join(rows))
+
+# ---- behaviour-preserving refactorings (the checks must stay silent)
+rf = []
+for p in sorted(glob.glob(os.path.join(os.path.dirname(__file__), "..", "seeded", "*", "meta.json"))):
+    m = json.load(open(p))
+    if m.get("kind") != "refactor":
+        continue
+    name = os.path.basename(os.path.dirname(p))
+    summ = (m.get("summary") or "").replace("|", "/").replace("\n", " ")
+    summ = summ[:260] + ("…" if len(summ) > 260 else "")
+    loud = [c["check"] for c in m.get("checks", []) if c["exit"] != 0 or c.get("errors") not in ("0", 0)]
+    rf.append(f"| {name} | {m.get('file', '')} | {summ} | {'all ' + str(len(m.get('checks', []))) + ' checks silent' if not loud else 'NOT silent: ' + ', '.join(loud)} | {m.get('note', '')} |")
+if rf:
+    print()
+    print("| refactoring | file(s) | what was restructured (author's summary, shortened) | checks | note |")
+    print("|---|---|---|---|---|")
+    print("\n".join(rf))
